@@ -215,6 +215,8 @@ class CSVDailyBarDataSource(object):
             The bid price.
         """
         bid_ask_df = self.asset_bid_ask_frames[asset]
+        if dt < bid_ask_df.index[0]:  # Before start date
+            return np.nan
         bid_series = bid_ask_df.iloc[bid_ask_df.index.get_indexer([dt], method='pad')]['Bid']
         try:
             bid = bid_series.iloc[0]
@@ -240,6 +242,8 @@ class CSVDailyBarDataSource(object):
             The ask price.
         """
         bid_ask_df = self.asset_bid_ask_frames[asset]
+        if dt < bid_ask_df.index[0]:  # Before start date
+            return np.nan
         ask_series = bid_ask_df.iloc[bid_ask_df.index.get_indexer([dt], method='pad')]['Ask']
         try:
             ask = ask_series.iloc[0]
